@@ -56,12 +56,17 @@ func LoadBaseline(file string) error {
 		l = strings.TrimSpace(l)
 		if l != "" && !strings.HasPrefix(l, "#") {
 			cols := strings.Split(l, "\t")
-			if cols[0] == "field" && len(cols) == 3 {
+			if cols[0] == "field" && len(cols) >= 3 {
 				i := strings.LastIndex(cols[1], ".")
 				if baselineFields[cols[1][:i]] == nil {
 					baselineFields[cols[1][:i]] = map[string]string{}
+					baselineFieldPos[cols[1][:i]] = map[string]int{}
 				}
 				baselineFields[cols[1][:i]][cols[1][i+1:]] = cols[2]
+				if len(cols) >= 4 {
+					n, _ := strconv.Atoi(cols[3])
+					baselineFieldPos[cols[1][:i]][cols[1][i+1:]] = n
+				}
 				continue
 			}
 			Baseline[cols[0]] = true
@@ -849,8 +854,8 @@ func (nz *normalizer) inlineStmtsP(h *helper, p *packages.Package, f *ast.File, 
 							repl = append(repl, fused...)
 							direct = true
 						} else {
-								repl = append(repl, &ast.IfStmt{Cond: &ast.BinaryExpr{X: ast.NewIdent(results[len(results)-1]), Op: token.NEQ, Y: ast.NewIdent("nil")},
-							Body: &ast.BlockStmt{List: fused}})
+							repl = append(repl, &ast.IfStmt{Cond: &ast.BinaryExpr{X: ast.NewIdent(results[len(results)-1]), Op: token.NEQ, Y: ast.NewIdent("nil")},
+								Body: &ast.BlockStmt{List: fused}})
 						}
 					}
 				}
@@ -1612,7 +1617,7 @@ func (nz *normalizer) iife(p *packages.Package, lit *ast.FuncLit) *helper {
 	if f != nil {
 		for _, d := range f.Decls {
 			if fd, ok := d.(*ast.FuncDecl); ok && fd.Pos() <= lit.Pos() && lit.End() <= fd.End() {
-				if InBaseline(FuncKey(p.PkgPath, fd)+"$iife") {
+				if InBaseline(FuncKey(p.PkgPath, fd) + "$iife") {
 					f = nil // the pinned tree already has an immediately-invoked literal here: leave the function alone
 				}
 			}
